@@ -429,6 +429,22 @@ def rule_r11_notnone(ctx, prog, rule="R11"):
             if isinstance(payload, tuple) and payload[0] == "agg" and payload[1] == "std::option::Option" and payload[2] == "Some":
                 ctx.ob(rule, key, True, where, "payload is Some(_) by construction")
                 continue
+            # a copy of the payload of an existing NotNone (hand-written Clone/Copy): `NotNone(self.0.clone())` with self: &NotNone<T> –
+            # what the derive expands to; Clone of a Some is a Some
+            pc = payload
+            for _ in range(3):
+                if isinstance(pc, tuple) and pc[0] == "call" and pc[1] in ("clone", "copied", "cloned") and len(pc[3]) == 1:
+                    pc = strip(pc[3][0])
+                elif isinstance(pc, tuple) and pc[0] in ("ref", "deref"):
+                    pc = strip(pc[1])
+            if isinstance(pc, tuple) and pc[0] == "field" and str(pc[2]) == "0" and pc is not payload:
+                base = strip(pc[1])
+                for _ in range(3):
+                    if isinstance(base, tuple) and base[0] in ("ref", "deref"):
+                        base = strip(base[1])
+                if isinstance(base, tuple) and base[0] == "param" and "maybe_nan::NotNone<" in (b.raw["locals"][base[1]].get("ty") or ""):
+                    ctx.ob(rule, key, True, where, "payload is a clone of the payload of an existing NotNone (hand-written Clone)")
+                    continue
             good = False
             for (sbb, truth, de) in bool_branch_dominating(b, bb, lambda d: True):
                 d = strip(de)
